@@ -32,7 +32,7 @@ def generate(pid, src_root=None):
         else:
             txt, notes = py2lean.translate(specs, Path(src_root) if src_root else SRC, HEADER.format(imports=imports))
         ok = True
-    except (py2lean.TranslateError, srcspecs.py2lean_cache.TranslateError, SyntaxError, OSError) as e:
+    except (py2lean.TranslateError, srcspecs.py2lean_cache.TranslateError, srcspecs.py2lean_weights.TranslateError, SyntaxError, OSError) as e:
         msg = str(e).replace("-/", "- /")
         txt = (HEADER.format(imports=imports) + f"\n/- the translator could not read the source: {msg} -/\n"
                "#eval (show Nat from \"py2lean: translation failed, see the comment above\")\n")
